@@ -195,6 +195,37 @@ Definition periodic_task (can_id : Z) (data : list Z) (period : Z) (remote : boo
   : frame * list (frame * Z) :=
   let m := mk_frame can_id data remote in (m, [(m, period)]).
 
+(* PeriodicMessageTask.update(data):  self.msg.data = new_data  - in place, every other attribute of
+   the message (id, remote flag, extended flag, and also dlc, which python-can does not recompute)
+   is kept; then task.modify_data(msg) when the bus task has it, else stop + start again when the
+   data changed.  State: the message and its dlc. *)
+Inductive bus_call :=
+| BModify (f : frame) (dlc : Z)
+| BStop
+| BSendPeriodic (f : frame) (dlc : Z) (period : Z).
+
+Definition set_frame_data (f : frame) (d : list Z) : frame :=
+  {| f_id := f_id f; f_data := d; f_remote := f_remote f; f_ext := f_ext f; f_err := f_err f; f_ts := f_ts f |}.
+
+Definition periodic_update (modify : bool) (period : Z) (st : frame * Z) (d : list Z)
+  : (frame * Z) * list bus_call :=
+  let '(m, dlc) := st in
+  let m' := set_frame_data m d in
+  if modify then ((m', dlc), [BModify m' dlc])
+  else if list_Z_eqb d (f_data m) then ((m', dlc), [])
+  else ((m', dlc), [BStop; BSendPeriodic m' dlc period]).
+
+Fixpoint periodic_updates (modify : bool) (period : Z) (st : frame * Z) (ds : list (list Z))
+  : list ((frame * Z) * list bus_call) :=
+  match ds with
+  | [] => []
+  | d :: r => let '(st', calls) := periodic_update modify period st d in
+              (st', calls) :: periodic_updates modify period st' r
+  end.
+
+Definition periodic_start (can_id : Z) (data : list Z) (remote : bool) : frame * Z :=
+  let m := mk_frame can_id data remote in (m, Z.of_nat (length (f_data m))).
+
 (* ------------------------------------------------------------------ Network state and operations *)
 Record net := { subs : smap; nodes : nmap; scanned : list Z; chans : cmap }.
 
@@ -264,7 +295,12 @@ Inductive op :=
 | ONotify (c : Z) (data : list Z) (ts : Z)     (* net.notify(c, data, ts) *)
 | ORecv (f : frame)                            (* net.listeners[0].on_message_received(msg) *)
 | OScanReset                                   (* net.scanner.reset() *)
-| OAddSdo (o : nobj) (rx tx : Z).              (* obj.add_sdo(rx, tx) *)
+| OAddSdo (o : nobj) (rx tx : Z)               (* obj.add_sdo(rx, tx) *)
+| OReassoc (o : nobj)                          (* if net.nodes.get(obj.id) is obj: obj.associate_network(net)
+                                                  (a second associate_network of an attached node) *)
+| OConnect                                     (* net.connect(...): bus + notifier; subscriptions untouched *)
+| ODisconnect.                                 (* net.disconnect(): pdo.stop of every node, notifier, bus;
+                                                  subscriptions, nodes, scanner untouched *)
 
 Definition with_subs (s : net) (m : smap) : net :=
   {| subs := m; nodes := nodes s; scanned := scanned s; chans := chans s |}.
@@ -287,6 +323,10 @@ Definition step (o : op) (s : net) : net * res (list delivery) :=
   | ORecv f => let '(s', l) := listener f s in (s', Ok l)
   | OScanReset => ({| subs := subs s; nodes := nodes s; scanned := []; chans := chans s |}, Ok [])
   | OAddSdo o rx tx => let '(s', r) := add_sdo o rx tx s in (s', lift_unit r)
+  | OReassoc o =>
+      if registered o s then (with_subs s (associate (txs_of o (chans s)) o (subs s)), Ok []) else (s, Ok [])
+  | OConnect => (s, Ok [])
+  | ODisconnect => (s, Ok [])
   end.
 
 Fixpoint run_ops (ops : list op) (s : net) : net * list (res (list delivery)) :=
@@ -328,11 +368,22 @@ Definition dump (s : net) : val :=
       VL (map VZ (scanned s));
       VL (map (fun ol => VL (oval (fst ol) ++ [VL (map VZ (snd ol))])) (chans s))].
 
+Definition fvald (f : frame) (dlc : Z) : val :=
+  VL [VZ (f_id f); VB (f_data f); VBool (f_remote f); VBool (f_ext f); VBool (f_err f); VZ dlc].
+
+Definition bcval (b : bus_call) : val :=
+  match b with
+  | BModify f dlc => VL [VZ 0; fvald f dlc]
+  | BStop => VL [VZ 1]
+  | BSendPeriodic f dlc p => VL [VZ 2; fvald f dlc; VZ p]
+  end.
+
 Inductive net_case :=
 | CHist (ops : list op)
 | CScan (ids : list Z)
 | CSend (connected : bool) (c : Z) (data : list Z) (remote : bool)
-| CPeriodic (c : Z) (data : list Z) (period : Z) (remote : bool).
+| CPeriodic (c : Z) (data : list Z) (period : Z) (remote : bool)
+| CPeriodicUpd (modify : bool) (c : Z) (data : list Z) (period : Z) (remote : bool) (updates : list (list Z)).
 
 Definition run_net (c : net_case) : val :=
   match c with
@@ -344,4 +395,9 @@ Definition run_net (c : net_case) : val :=
   | CPeriodic c d p r =>
       let '(m, l) := periodic_task c d p r in
       VL [fval m; VL (map (fun mp => VL [fval (fst mp); VZ (snd mp)]) l)]
+  | CPeriodicUpd modify c d p r ups =>
+      let st := periodic_start c d r in
+      VL [fvald (fst st) (snd st);
+          VL (map (fun sc => VL [fvald (fst (fst sc)) (snd (fst sc)); VL (map bcval (snd sc))])
+                  (periodic_updates modify p st ups))]
   end.
